@@ -90,7 +90,8 @@ def run(ctx):
 
     ctx.rule = ("one case = one connectSync/connectSyncCancellable call inside a batch; a batch = fresh Transport + one hostile loopback "
                 "target + 1..32 concurrent callers + seeded timeout sweep (0,1,2,3,5,8,13,20 ms and 3 s) [+ cancel at a seeded offset] "
-                "[+ condvar-shim pre-park delay in the caller]. distinct = hash(target kind, api, timeout bucket, caller bucket, "
+                "[+ condvar-shim pre-park delay in the caller]; about every 8th batch is teardown-racing instead: callers parked on an accepting "
+                "target behind slow global onConnect callbacks while another thread stops or destroys the transport. distinct = hash(target kind, api, timeout bucket, caller bucket, "
                 "pre-park?, result, returned at/after expiry?, cancel scheduled?)")
     ctx.assumptions = [
         "return-time bound (timeout + 500 ms + 50 %) is judged only on batches without the pre-park delay and only for calls during "
@@ -107,6 +108,9 @@ def run(ctx):
            "calls_cancellable", "batches_16_32_callers", "batches_1_caller",
            "result_ok", "result_Timeout", "result_Connect", "result_Resolve", "result_TLSHandshake", "result_Cancelled"]
     req += ["calls_" + s for s in SCN]
+    req += ["calls_teardown-racing", "teardown_racing_destroyed_with_callers_parked", "teardown_racing_stopped",
+            "teardown_racing_returned_ShuttingDown", "teardown_racing_returned_ok",
+            "teardown_racing_connects_completed_after_caller_gave_up"]
     ctx.require_obs(*req)
 
 
